@@ -23,6 +23,11 @@ def cases(tier, seed):
     prof = dict(for_=5, if_ct=4, switch=3, assign=4, decl=4, call=4, gates=4, mods=0, depth=3, custom=2)
     for _ in range(n):
         out.append(dict(src=gen.random_program(rnd, prof)[0], family="random-control"))
+    m = 0
+    for s in gen.array_cases(rnd, 500 if tier == "quick" else 6000):
+        if "def f(" in s:
+            out.append(dict(src=s, family="array-arguments"))
+            m += 1
     return out
 
 
